@@ -113,6 +113,11 @@ pub open spec fn math_piece_ok(n: &SyntaxNode, d: DocV) -> bool {
     &&& (!ast::expr_kind(n.kind_s()) && n.kind_s() != SyntaxKind::Space && n.kind_s() != SyntaxKind::Hash ==> d == txt(n.text_s()))
 }
 
+/// C07: an expression child of a Math node that carries an `@typstyle off` mark is one piece: its source text
+pub open spec fn math_piece_verbatim(store: AttrStore, n: &SyntaxNode, d: DocV) -> bool {
+    store.disabled_s(n.span_s()) && ast::expr_kind(n.kind_s()) ==> d == txt(n.full_text_s())
+}
+
 /// PF4: a MathDelimited node has its opening and closing delimiter as first and last child
 #[verifier::external_body]
 pub proof fn pf_math_delimited(n: &SyntaxNode)
